@@ -67,9 +67,9 @@ CLAIMED = {
             "Proof: Spec/Escape.v states 7.4.1 on whole byte strings. Theorems (Props/C02.v): unescape (escape p) = Some p; refusal of 00 00 00 and 00 00 03 xx(>03); C02_stream_history - for every chunking of the underlying reader (all chunks non-empty), every examination window >= 1, every header skip within the input and every sequence of fill_buf / consume(k) / read(n) calls, the bytes handed over are a prefix of unescape(payload), WouldBlock occurs only on an incomplete NAL after everything was delivered, InvalidData only when the payload is not clean and then everything delivered comes from a clean prefix, and the model never panics or runs out of fuel; C02_stream_drain - reading to the end yields exactly unescape(payload); C02_paths_agree - any two chunkings/windows of the same bytes give the same RBSP; C02_decode_nal - decode_nal nal = unescape(tl nal), Borrowed exactly when the output has the input's length, which (C02_borrow_iff_unchanged) is exactly when it equals the input. Proof route: scanner automaton uout = unescape (RbspSem), scan loop lemma (RbspScan), invariant + meaning preserved by try_fill_buf_slow/fill loop/fill_buf/consume/read with a termination measure (RbspReader), histories/drain/decode_nal (RbspStream). Correspondence on every run: all strings <= 6 over {00,01,03,04} x all partitions x 4 read styles x skips 0..2 x hook windows 1..4; escapes and forbidden sequences around offsets 125..131 / 253..259 of 120..4000-byte chunks; random escaped payloads; model = implementation on every operation result, implementation = reference unescape on drains and decode_nal.",
             "Trusted: Coq kernel; the correspondence run ties Model/Rbsp.v to src/rbsp.rs (generator bounds detection of model/code divergence: chunks > 128 bytes are covered by the window cases and the corpus); decode_nal theorem assumes the slice length fits usize.",
             "DESIGN.md 5 C02"),
-    "C05": ("Coq weakest-precondition proof for accepted PPS (ranges, context reference, slice-group shapes, scaling-list counts) + exact tail detection lemma; forward round trip by differential execution on generated conforming PPS",
-            "Partial proof: every accepted PPS (any input, any context of accepted SPS incl. 2^32-macroblock sizes) satisfies inv_pps - ids in range, referenced SPS in the context, map type 0 with 2..8 run lengths, type 2 with n rectangles (top_left <= bottom_right), type 6 ids < 8, ref counts <= 32, offsets in range, 6+(2|6) picture scaling lists - consumes its input front to back and never aborts; the optional tail is detected exactly when data precedes the trailing bits. The forward round trip against a spec encoder of 7.3.2.2 is not yet a theorem; it is checked by correspondence (all 7 map types x 2..8 groups x tail on/off x list shapes x SPS variants, boundary values, malformed variants).",
-            "Trusted: Coq kernel; Python generator/encoder for the conforming streams (shapes inputs only).",
+    "C05": ("Coq round-trip proof against a spec encoder of 7.3.2.2 (all slice-group map types, optional tail, picture scaling lists) over every context of accepted SPS + weakest-precondition proof for accepted PPS + exact tail detection; model tied to src/nal/pps.rs by differential execution on generated conforming and malformed PPS",
+            "Proof: Spec/SyntaxPps.v writes pic_parameter_set_rbsp as an encoder (enc_pps) with the standard's ranges (wf_pps, relative to the referenced SPS: run lengths / rectangles / change rate against PicSizeInMapUnits, slice_group_id width Ceil(Log2(n+1)), QP range with QpBdOffset, 6+(2|6) scaling lists). C05_roundtrip: for every context whose SPS were accepted and every conforming PPS, pps_from_bits (enc_pps p ++ rbsp trailing bits with any zero padding) = OK p, field for field; C05_body: the structure parser stops exactly at the trailing bits; C05_tail_exact: the optional tail is detected exactly when data precedes the trailing bits; C05_accepted / C05_consumes: every accepted PPS (any input) satisfies inv_pps and was consumed front to back, never aborting. Correspondence on every run: all 7 map types x 2..8 groups x tail on/off x list shapes x SPS variants, boundary values, malformed variants, model = implementation.",
+            "Trusted: Coq kernel; the correspondence run ties Model/Pps.v to src/nal/pps.rs; Python generator/encoder shapes inputs only.",
             "DESIGN.md 5 C05"),
     "C06": ("Coq weakest-precondition proof through the whole slice-header model (fuelled loops included) for accepted headers; conditional-presence and reader position by differential execution over all flag combinations",
             "Partial proof: for every input and every context of accepted sets slice_header_read never aborts (its unbounded loops never run out of fuel), consumes front to back, and an accepted header satisfies inv_slice (the returned ids name the context's PPS and the SPS it refers to; frame_num / POC lsb below the declared moduli; ref counts <= 32; QS 0..51; qp delta <= 51; deblocking idc <= 6). That each conditional element is read exactly under the standard's condition, and that the reader stops on the first bit of slice data, is checked by correspondence: all slice types x NAL types x ref_idc x 2^13 context flag combinations with boundary values; the 16 bits after the header must be the generated slice data.",
